@@ -68,6 +68,7 @@ func ruleBlockVerificationChain(r *Run, rule string) {
 func checkC01(r *Run) {
 	r.Explain = "C01: (R1) VerifyTransactionCoinsSpending succeeds only with sum(in)==sum(out), both sums built solely through the checked AddUint64 fold; (R2) every path from block execution to the store passes that check with the inputs looked up in the unspent pool and the outputs the transaction creates; (R3) zero-coin/overflow output checks; (R4) ownership: the unspent-pool bucket is written only by pool.put/pool.delete, called only from Unspents.ProcessBlock, reached only from block execution; (R5) what ProcessBlock deletes are the looked-up inputs and what it puts are CreateUnspents of the block's transactions, with Coins copied field-to-field; (R6) no raw + or * on Coins-derived values in the consensus packages; (R7) genesis is the only coin-creating output."
 	r.NotDec = "that the stored UTXO sum equals the genesis volume for a concrete history (a value); bolt transaction atomicity (trusted)"
+	ruleMathutilIdioms(r, "C01-R1")
 	ruleChainConfigPassthrough(r, "C01-R2")
 
 	// R1
